@@ -40,7 +40,8 @@ func perms(xs []string) [][]string {
 func scriptOptions(names []string) []string {
 	targets := append(append([]string{}, names...), "x.p")
 	// (the nested one fails its check three calls deep: its error already carries a chain of three positions)
-	opts := []string{"a b\n", "p(1)\nnosuch()\n", "p(1)\n", "p(1)\n  x = [len(len(nosuch()))]\n"}
+	// (a check that fails inside a loop body, and a stray break: neither must influence the other's verdict)
+	opts := []string{"a b\n", "p(1)\nnosuch()\n", "p(1)\n", "p(1)\n  x = [len(len(nosuch()))]\n", "for x in [1] {\n  for i = 0; i < 1; i = i + 1 {\n    nosuch()\n  }\n}\n", "p(1)\nbreak\n", "if true {\n  continue\n}\n"}
 	for _, t := range targets {
 		opts = append(opts, fmt.Sprintf("p(1)\nuse(%q)\n", t))
 		for _, u := range targets {
@@ -105,7 +106,12 @@ func genC09(e *emitter, tier string, seed int64) {
 		"two-paths": {{"a.p", "use(\"b.p\")\nuse(\"c.p\")\n"}, {"b.p", "use(\"c.p\")\n"}, {"c.p", "p(1)\n"}},
 		"cycle-off": {{"a.p", "use(\"b.p\")\n"}, {"b.p", "use(\"c.p\")\n"}, {"c.p", "p(1)\np(2)\n  use(\"b.p\")\n"}},
 		"self":      {{"a.p", "use(\"a.p\")\n"}},
-		"bad-leaf":  {{"a.p", "p(0)\n\nuse(\"b.p\")\n"}, {"b.p", "p(0)\n  use(\"c.p\")\n"}, {"c.p", "p(1)\n\n\n   use(\"x.p\")\n"}},
+		// names are exact: a directory component is part of the name
+		"dir-missing":   {{"a.p", "use(\"lib/b.p\")\n"}, {"b.p", "p(1)\n"}},
+		"dir-both":      {{"a.p", "use(\"lib/b.p\")\nuse(\"b.p\")\n"}, {"b.p", "p(1)\n"}, {"lib/b.p", "p(2)\n"}},
+		"dir-same-base": {{"a.p", "use(\"lib/a.p\")\n"}, {"lib/a.p", "p(1)\n"}},
+		"dir-empty":     {{"a.p", "use(\"\")\n"}, {"b.p", "use(\"./b.p\")\n"}, {"c.p", "use(\"c.p/\")\n"}},
+		"bad-leaf":      {{"a.p", "p(0)\n\nuse(\"b.p\")\n"}, {"b.p", "p(0)\n  use(\"c.p\")\n"}, {"c.p", "p(1)\n\n\n   use(\"x.p\")\n"}},
 	}
 	// use() calls in every statement and expression context (loops with conditional and unconditional
 	// break/continue before the call, nested blocks, operands, arguments): the call is registered, linked and
